@@ -2653,7 +2653,7 @@ static int parsec_check_overlapping_binding(parsec_context_t *context)
         if( 1 < nl ) {
             /* double check that our binding is not conflicting with other local procs */
             hwloc_cpuset_t proc_global_mask = parsec_hwloc_cpuset_convert_to_system(context->cpuset_used_mask);
-            int idx, length = hwloc_bitmap_last(proc_global_mask);  /* find the highest PU for this process */
+            int idx, length = hwloc_bitmap_last(proc_global_mask) + 1;  /* number of PUs up to the highest one of this process */
             MPI_Allreduce(MPI_IN_PLACE, &length, 1, MPI_INT, MPI_MAX, comml);  /* find the highest PU for this node */
             uint8_t *proc_mask = alloca(length);
             memset(proc_mask, 0, length);
